@@ -145,6 +145,7 @@ struct ZFileOpts {
     // 1-in-big_rate files get one chunk that crosses the library's internal block sizes (32 KiB copy/scan/read buffer; with
     // big_huge also zstd's 128 KiB block): stored sizes of 32768+-2, 33000..70000, 131072+-2, 132000..200000 bytes.  0 = never.
     unsigned big_rate = 0; bool big_huge = false;
+    bool allow_trailing = true;         // reference-written files may carry unused bytes at the end of the header
     bool allow_empty_stored = true;     // reference-written zstd files may hold stored-but-empty chunks
 };
 static inline Bytes chunk_content(Ctx &c, size_t maxlen) {
@@ -158,7 +159,7 @@ static inline Bytes chunk_content(Ctx &c, size_t maxlen) {
     }
     return b;
 }
-struct ZParams { int comp = ZCK_COMP_ZSTD; Bytes dict; std::vector<Bytes> chunks; int full_hash = -1, chunk_hash = -1; bool uncomp = false; int level = -1; bool by_ref = false; bool store_empty = false; };
+struct ZParams { int comp = ZCK_COMP_ZSTD; Bytes dict; std::vector<Bytes> chunks; int full_hash = -1, chunk_hash = -1; bool uncomp = false; int level = -1; bool by_ref = false; bool store_empty = false; bool no_content_size = false; Bytes trailing; };
 static inline ZFile zfile_build(Ctx &c, const ZParams &q0) {
     ZParams q = q0;      // empty data chunks exist only as stored-but-empty chunks of reference-written zstd files; a variant derived for the library's writer drops them
     if (!(q.by_ref && q.store_empty && q.comp == ZCK_COMP_ZSTD)) { q.store_empty = false; q.chunks.erase(std::remove_if(q.chunks.begin(), q.chunks.end(), [](const Bytes &b) { return b.empty(); }), q.chunks.end()); }
@@ -166,8 +167,8 @@ static inline ZFile zfile_build(Ctx &c, const ZParams &q0) {
     for (auto &ch : q.chunks) z.D.insert(z.D.end(), ch.begin(), ch.end());
     if (q.by_ref) {
         ref::WriteSpec w; w.comp = q.comp; w.hash_type = q.full_hash < 0 ? 1 : q.full_hash; w.chunk_hash_type = q.chunk_hash < 0 ? 3 : q.chunk_hash;
-        w.uncomp_flag = q.uncomp; w.dict = q.dict; w.chunks = q.chunks; w.level = q.level < 0 ? 3 : q.level; w.store_empty = q.store_empty;
-        z.file = ref::write(w).file;
+        w.uncomp_flag = q.uncomp; w.dict = q.dict; w.chunks = q.chunks; w.level = q.level < 0 ? 3 : q.level; w.store_empty = q.store_empty; w.no_content_size = q.no_content_size;
+        ref::EmitOpts eo; eo.trailing = q.trailing; z.file = ref::write(w, eo).file;
     } else {
         lib::WCfg w; w.comp = q.comp; w.full_hash = q.full_hash; w.chunk_hash = q.chunk_hash; w.uncomp = q.uncomp; w.dict = q.dict; w.manual = true; w.level = q.comp == ZCK_COMP_ZSTD ? q.level : -1;
         std::vector<lib::WOp> ops;
@@ -184,7 +185,7 @@ static inline ZFile zfile_build(Ctx &c, const ZParams &q0) {
     std::ostringstream d; d << (z.by_ref ? "ref-written" : "lib-written") << " comp=" << (z.comp == ZCK_COMP_ZSTD ? "zstd" : "none") << " dict=" << q.dict.size()
       << " fullhash=" << z.h.hash_type << " chunkhash=" << z.h.chunk_hash_type << (q.uncomp ? " uncomp-flag" : "") << " chunks=[";
     for (size_t i = 0; i < q.chunks.size() && i < 16; i++) d << (i ? "," : "") << q.chunks[i].size() << ">" << z.h.entries[i + 1].comp_len;
-    if (q.store_empty) d << " (stored-but-empty chunks)";
+    if (q.store_empty) d << " (stored-but-empty chunks)"; if (q.no_content_size) d << " (frames without content size)"; if (!q.trailing.empty()) d << " (" << q.trailing.size() << " unused header bytes)";
     if (q.chunks.size() > 16) d << ",...(" << q.chunks.size() << ")";
     d << "]"; z.desc = d.str();
     return z;
@@ -219,6 +220,9 @@ static inline ZParams zparams(Ctx &c, const ZFileOpts &o = ZFileOpts()) {
     // a chunk that stores bytes but holds no data (the zstd frame of nothing: stored size 9..13, size 0) - legal, read back as nothing,
     // never produced by the library's writer, so only the reference writer makes it
     if (c.gver >= 4 && o.allow_empty_stored && q.by_ref && q.comp == ZCK_COMP_ZSTD && c.rarely(3)) { size_t at = c.draw(q.chunks.size()); q.chunks.insert(q.chunks.begin() + at, Bytes()); if (c.rarely(3)) q.chunks.insert(q.chunks.begin() + c.draw(q.chunks.size()), Bytes()); q.store_empty = true; }
+    // reference-written files only: zstd frames without the content-size field; unused bytes between the signature count and the end of the header
+    if (c.gver >= 4 && q.by_ref && q.comp == ZCK_COMP_ZSTD && c.rarely(3)) q.no_content_size = true;
+    if (c.gver >= 4 && q.by_ref && o.allow_trailing && c.rarely(4)) q.trailing = c.bytes(1 + c.draw(40));
     // a dictionary larger than the library's 32 KiB block buffers (the dictionary is chunk 0 and is read, copied and extracted by its own code paths)
     if (c.gver >= 4 && o.big_rate && o.allow_dict && c.rarely(o.big_rate)) {
         size_t n = c.boolean() ? 32766 + c.draw(4) : 33000 + c.draw(o.big_huge ? 110000 : 40000); q.dict.resize(n); uint64_t seed = c.draw(0xffff);
